@@ -100,6 +100,21 @@ CHECKS = {
         note=BASE_NOTE + 'The verifier-with-soundness-proof of the design is not built: statements, calls and control flow are '
              'covered by the monitor only. _exec_* type behaviour is extracted by execution on one representative per type.',
         technique='Lean 4 kernel-evaluated obligations over regenerated tables + induction; run-time monitor as search oracle'),
+    'C01': dict(
+        category='proof',
+        text='Proved subset: EXPRESSIONS. compileC_correct: for every operator tree over all operators and operand types the '
+             'static check accepts, all leaf values, any depth, any stack beneath and all float operation records, running '
+             'the generated code gives exactly the reference value (typed) or the same error. The reference semantics uses '
+             'the language\'s operand-type rule written independently of the generator; that the generator emits exactly the '
+             'prescribed conversions/instructions is a kernel-evaluated obligation over tables REGENERATED from the source. '
+             'The machine arithmetic model is tied to the real instructions on boundary values, and the reference value of '
+             'generated trees is compared with the value real compiled programs compute (2/6 configurations). Statements, '
+             'control flow, procedures, arrays, records: NOT proved; validated by six-configuration differential runs only '
+             '(and by C03/C04/C15/C17/C18 for their parts). Deviations of the integer arithmetic from QBASIC are stated as '
+             'machine-checked witnesses.',
+        design_ref='DESIGN.md section 9 C01',
+        note=BASE_NOTE + 'Partial: see text. float ** float is external. Lean Float is the executable float instance.',
+        technique='Lean 4 compile-correctness theorem for expressions over regenerated tables + differential validation'),
 }
 
 PENDING = ('not yet decided by the Lean framework in this commit; design in DESIGN.md section 9, implementation order in '
